@@ -120,7 +120,18 @@ type SpecDB struct {
 	funSigs   map[string]funSig
 	axioms    []*Clause // quantified/global axioms in contract language (trusted)
 	lemmas    []*Lemma
+	typeinvs  map[string]*TypeInv // "<pkg path>.<type name>" -> object invariant
 	errors    []string
+}
+
+// TypeInv: `typeinv T macroName New1 New2`: every non-nil *T satisfies macroName(x). It is proved, not
+// assumed: the named constructors ensure it (their contracts must say so and are verified in every run that
+// uses it), values of T are allocated in those constructors only and their fields are stored nowhere else
+// (SSA scan typeinv#immutable).
+type TypeInv struct {
+	Pkg, Type, Macro string
+	Ctors            []string
+	Src              string
 }
 
 type funSig struct {
@@ -132,6 +143,7 @@ func newSpecDB() *SpecDB {
 	return &SpecDB{
 		contracts: map[string]*Contract{},
 		macros:    map[string]*Macro{},
+		typeinvs:  map[string]*TypeInv{},
 		ghostSort: map[string]string{},
 		funSigs:   map[string]funSig{},
 	}
@@ -153,7 +165,7 @@ func normKey(k string) string {
 var clauseKw = map[string]bool{
 	"func": true, "spec": true, "requires": true, "ensures": true, "modifies": true, "loop": true,
 	"panics-unless": true, "macro": true, "ghost": true, "axiom": true, "swallows": true,
-	"noinline": true, "opaque": true, "havoc": true, "walk": true, "walks": true, "pure-verdict": true, "pure-result": true, "counts": true, "sets": true, "sets-post": true, "implementers": true, "let": true, "letold": true, "smt": true, "lemma": true,
+	"noinline": true, "opaque": true, "havoc": true, "walk": true, "walks": true, "pure-verdict": true, "pure-result": true, "counts": true, "sets": true, "sets-post": true, "implementers": true, "let": true, "letold": true, "smt": true, "lemma": true, "typeinv": true,
 }
 
 type rawItem struct {
@@ -538,6 +550,14 @@ func (db *SpecDB) loadItems(items []rawItem, pkgPath string, trusted bool) {
 				continue
 			}
 			db.axioms = append(db.axioms, &Clause{Kind: "axiom", Tags: tags, Text: text, E: e, Src: it.src})
+		case "typeinv":
+			f := strings.Fields(rest)
+			if len(f) < 3 {
+				fail(it, "bad typeinv (want: typeinv Type macro Ctor...)")
+				continue
+			}
+			db.typeinvs[pkgPath+"."+f[0]] = &TypeInv{Pkg: pkgPath, Type: f[0], Macro: f[1], Ctors: f[2:], Src: it.src}
+			cur = nil
 		case "smt":
 			db.addPreamble(rest)
 		case "lemma":
